@@ -31,6 +31,44 @@ def gen_tree(rng, depth=0, max_depth=4):
     return entries
 
 
+BELOW_SLASH = " !#$%&'()+,-."
+
+
+def add_order_siblings(rng, tree, n=2):
+    """Next to a non-empty directory D adds an entry named D + <character sorting below '/'> + suffix, so that the
+    byte order of the relative paths differs from a component-wise (or otherwise path-aware) order."""
+    for _ in range(n):
+        dirs = [("", ("d", tree))] + [(p, nd) for p, nd in all_paths(tree) if nd[0] == "d"]
+        _hp, host = rng.choice(dirs)
+        inner = [nm for nm, nd in host[1].items() if nd[0] == "d" and nd[1]]
+        if not inner:
+            if len(host[1]) > 12:
+                continue
+            nm = rng.choice(["lib", "app", "src"])
+            if nm in host[1]:
+                continue
+            host[1][nm] = ("d", {"util.py": ("f", b"u%d" % rng.randrange(9))})
+            inner = [nm]
+        d = rng.choice(inner)
+        sib = d + rng.choice(BELOW_SLASH) + rng.choice(["", "x", "py", "extra"])
+        if sib in host[1]:
+            continue
+        host[1][sib] = ("f", b"s%d" % rng.randrange(9)) if rng.random() < 0.6 else \
+            ("d", {"data.bin": ("f", b"d%d" % rng.randrange(9))})
+    return tree
+
+
+def to_jsonable(tree):
+    """Replayable description of a tree (file contents as hex)."""
+    return {n: (["f", nd[1].hex()] if nd[0] == "f" else ["l", nd[1]] if nd[0] == "l" else ["d", to_jsonable(nd[1])])
+            for n, nd in tree.items()}
+
+
+def from_jsonable(j):
+    return {n: (("f", bytes.fromhex(nd[1])) if nd[0] == "f" else ("l", nd[1]) if nd[0] == "l" else ("d", from_jsonable(nd[1])))
+            for n, nd in j.items()}
+
+
 def all_paths(tree, prefix=""):
     for name, node in tree.items():
         p = prefix + name
